@@ -3,14 +3,17 @@
     [C15_facts_pinned] (which breaks when the anchored code is edited). *)
 From Coq Require Import Reals QArith Qreals Qabs ZArith NArith List Bool Lia Lra.
 Import ListNotations.
-From Steady Require Import SteadyLoop GenSteadyFacts SteadyLoopProofs Relax.
+From Steady Require Import SteadyLoop GenSteadyFacts ExpectedFacts SteadyLoopProofs SteadyHistProofs Relax.
 
 Definition expected_ss_facts : ss_facts :=
-  mkSSFacts 100%Z 1000%N CmpLt NormL2 PrevCopy RelDivPrev ExhaustFail true.
+  mkSSFacts 100%Z 1000%N CmpLt NormL2 PrevCopy RelDivPrev ExhaustFail C15_expected_succ true.
+(** the loop with / without the test of integ.successful() (fixes/C15-integrator-failure.diff) *)
+Definition repaired_ss_facts : ss_facts := C15_ss_facts SuccChecked.
+Definition snapshot_ss_facts : ss_facts := C15_ss_facts SuccUnchecked.
 Definition expected_plumb_facts : plumb_facts := mkPlumb true true (4722366482869645 # 4722366482869645213696)%Q.
 (** the same loop as it was before commit 0b233ce (y2 = integ.integrate(t), no copy) *)
 Definition alias_ss_facts : ss_facts :=
-  mkSSFacts 100%Z 1000%N CmpLt NormL2 PrevAlias RelDivPrev ExhaustFail true.
+  mkSSFacts 100%Z 1000%N CmpLt NormL2 PrevAlias RelDivPrev ExhaustFail SuccUnchecked true.
 
 Definition Pinned : Prop :=
   gen_ss_facts = expected_ss_facts /\ gen_plumb_facts = expected_plumb_facts.
@@ -113,7 +116,132 @@ Section AtPinned.
     destruct (success_propagates gen_plumb_facts gen_ss_facts tol rel y0 y H1 H2) as [C D].
     split; [exact A | split; [exact B | split; [exact C | exact D]]].
   Qed.
+
+  (** the model of the code ([ss_run_s]) on runs whose integration steps all succeed *)
+  Lemma p_all_ok_run : forall tol rel (y0 : vec) (y : nat -> vec) (ok : nat -> bool),
+    (forall n, ok n = true) -> ss_run_s gen_ss_facts tol rel y0 y ok = ss_run gen_ss_facts tol rel y0 y.
+  Proof. intros. apply all_ok_run. assumption. Qed.
+
+  Lemma gen_sim_ok : pf_sim_ok gen_plumb_facts = true.
+  Proof. destruct Hpin as [_ ->]. reflexivity. Qed.
+
+  Lemma p_history_result : forall ops, Forall op_modelled ops ->
+    hist_result gen_plumb_facts ops
+    = Some match first_failure ops with
+           | Some e => RError e
+           | None => match hist_rows None ops with
+                     | Some l => RSimulation l
+                     | None => RError EIntegrationFailure
+                     end
+           end.
+  Proof.
+    intros ops Hm. unfold hist_result. rewrite gen_sim_ok.
+    destruct (hist_result_spec ops Hm) as [s [E R]]. rewrite E, R. reflexivity.
+  Qed.
+
+  Lemma p_history_any_failure : forall ops op e, Forall op_modelled ops -> In op ops -> op_failure op = Some e ->
+    exists e', hist_result gen_plumb_facts ops = Some (RError e') /\ worker_row (RError e') = RowNaN.
+  Proof.
+    intros ops op e Hm Hin Hf. rewrite (p_history_result ops Hm).
+    destruct (first_failure_in ops op e Hin Hf) as [e' ->]. exists e'. split; reflexivity.
+  Qed.
+
+  Lemma p_history_failed_search : forall pre post r e, Forall op_modelled (pre ++ OpSteady r :: post) ->
+    first_failure pre = None -> op_failure (OpSteady r) = Some e ->
+    hist_result gen_plumb_facts (pre ++ OpSteady r :: post) = Some (RError e).
+  Proof.
+    intros pre post r e Hm Hpre Hf. rewrite (p_history_result _ Hm).
+    rewrite (first_failure_app_none pre _ Hpre). cbn [first_failure]. rewrite Hf. reflexivity.
+  Qed.
+
+  Lemma p_history_success_last : forall pre r l, Forall op_modelled (pre ++ [OpSteady r]) ->
+    hist_result gen_plumb_facts (pre ++ [OpSteady r]) = Some (RSimulation l) ->
+    exists t v l', r = SSSteady t v /\ l = l' ++ [(t, v)] /\ first_failure pre = None
+                   /\ worker_row (RSimulation l) = RowValues v.
+  Proof.
+    intros pre r l Hm H. unfold hist_result in H. rewrite gen_sim_ok in H.
+    destruct (sim_hist sim_fresh (pre ++ [OpSteady r])) as [s|] eqn:E; [|discriminate].
+    injection H as H.
+    destruct (hist_success_last pre r l Hm (ex_intro _ s (conj E H))) as [t [v [l' [Hr [Hl Hp]]]]].
+    exists t, v, l'. split; [exact Hr|]. split; [exact Hl|]. split; [exact Hp|].
+    rewrite Hl. unfold worker_row. rewrite rev_app_distr. reflexivity.
+  Qed.
+
+  Lemma p_accumulation_after_simulation : forall pre tol y0 c k,
+    Forall op_modelled pre -> first_failure pre = None ->
+    length c = length y0 -> (tol <= Qabs (nth k c 0))%Q ->
+    hist_result gen_plumb_facts
+      (pre ++ [OpSteady (ss_run gen_ss_facts tol false (traj_fun (TrajLin y0 c) 0%nat) (traj_fun (TrajLin y0 c)))])
+    = Some (RError ENoSteadyState).
+  Proof.
+    intros pre tol y0 c k Hm Hpre Hl Hk.
+    rewrite (p_linear_accumulation_fails tol y0 c k Hl Hk).
+    apply (p_history_failed_search pre [] SSNoSteady ENoSteadyState); [|exact Hpre|reflexivity].
+    apply Forall_app. split; [exact Hm|]. constructor; [exact I | constructor].
+  Qed.
 End AtPinned.
+
+(** the repaired loop: specification with failing integration steps *)
+Lemma repaired_checked : CheckedFacts repaired_ss_facts.
+Proof. repeat split. Qed.
+Lemma snapshot_unchecked : UncheckedFacts snapshot_ss_facts.
+Proof. repeat split. Qed.
+Lemma snapshot_l2lt : L2Lt snapshot_ss_facts.
+Proof. split; reflexivity. Qed.
+
+Lemma p_integrator_failure_reported : forall tol rel (y : nat -> vec) (ok : nat -> bool),
+  (forall n, length (y n) = length (y 0%nat)) ->
+  let F := repaired_ss_facts in
+  let c n := conv F tol rel (y n) (y (S n)) in
+  (forall t v, ss_run_s F tol rel (y 0%nat) y ok = SSSteady t v ->
+     exists n, (n < 1000)%nat /\ c n = true /\ (forall m, (m <= n)%nat -> ok (S m) = true)
+               /\ (forall m, (m < n)%nat -> c m = false)
+               /\ (t == inject_Z (100 * Z.of_nat (S n)))%Q /\ v = y (S n))
+  /\ (ss_run_s F tol rel (y 0%nat) y ok = SSIntegFail
+      <-> exists n, (n < 1000)%nat /\ ok (S n) = false /\ (forall m, (m < n)%nat -> ok (S m) = true /\ c m = false))
+  /\ (ss_run_s F tol rel (y 0%nat) y ok = SSNoSteady
+      <-> forall m, (m < 1000)%nat -> ok (S m) = true /\ c m = false)
+  /\ ss_run_s F tol rel (y 0%nat) y ok <> SSShape
+  /\ ss_run_s F tol rel (y 0%nat) y ok <> SSUnknownFacts.
+Proof.
+  intros tol rel y ok Hs. exact (checked_spec repaired_ss_facts repaired_checked tol rel y ok Hs).
+Qed.
+
+Lemma p_unchecked_stuck : forall tol (y : nat -> vec) (ok : nat -> bool) (f : nat),
+  (0 < tol)%Q -> (forall n, length (y n) = length (y 0%nat)) -> (f < 999)%nat ->
+  (forall m, (m <= f)%nat -> conv snapshot_ss_facts tol false (y m) (y (S m)) = false) ->
+  ok (S f) = false -> y (S (S f)) = y (S f) ->
+  exists t, ss_run_s snapshot_ss_facts tol false (y 0%nat) y ok = SSSteady t (y (S f))
+            /\ (t == inject_Z (100 * Z.of_nat (S (S f))))%Q.
+Proof.
+  intros tol y ok f Ht Hs Hf Hnc _ Hstuck.
+  apply (unchecked_stuck_is_steady snapshot_ss_facts snapshot_unchecked snapshot_l2lt tol y ok f Ht Hs); [|exact Hnc|exact Hstuck].
+  change (N.to_nat (sf_max_steps snapshot_ss_facts)) with 1000%nat. lia.
+Qed.
+
+(** a solver that fails in the first step at x = 5 (from x = 1) and stays there: the snapshot loop
+    reports x = 5 steady at t = 200, the repaired loop reports the failure *)
+Definition stuck_traj : nat -> vec := fun n => match n with O => [1%Q] | _ => [5%Q] end.
+Definition stuck_ok : nat -> bool := fun n => match n with O => true | _ => false end.
+
+Lemma unchecked_witness :
+  stuck_ok 1%nat = false
+  /\ ss_run_s snapshot_ss_facts (1 # 1000000) false (stuck_traj 0%nat) stuck_traj stuck_ok = SSSteady 200 [5%Q]
+  /\ ss_run_s repaired_ss_facts (1 # 1000000) false (stuck_traj 0%nat) stuck_traj stuck_ok = SSIntegFail.
+Proof. split; [reflexivity|]. split; vm_compute; reflexivity. Qed.
+
+(** non-vacuity of the history theorems: simulate two rows, then a failing search *)
+Definition demo_hist : list sim_op :=
+  [OpSimulate (TCRows [(0, [1%Q]); (10, [11%Q])]); OpSteady SSNoSteady; OpSimulate (TCRows [(10, [11%Q]); (20, [21%Q])])].
+Lemma demo_hist_modelled : Forall op_modelled demo_hist.
+Proof. repeat constructor. Qed.
+Lemma demo_hist_result : hist_result expected_plumb_facts demo_hist = Some (RError ENoSteadyState).
+Proof. vm_compute. reflexivity. Qed.
+Definition demo_hist_ok : list sim_op :=
+  [OpSimulate (TCRows [(0, [1%Q]); (10, [2%Q])]); OpSteady (SSSteady 300 [3%Q])].
+Lemma demo_hist_ok_result :
+  hist_result expected_plumb_facts demo_hist_ok = Some (RSimulation [(0, [1%Q]); (10, [2%Q]); (300, [3%Q])]).
+Proof. vm_compute. reflexivity. Qed.
 
 (** machine-checked counterexamples *)
 
